@@ -247,7 +247,11 @@ class Copeland:
                 tied.update(selected)
             else:
                 untied.append(selected)
-        second_order_scores = collections.defaultdict(int)
+        # Tied candidates without a pairwise win keep a zero second-order
+        # score instead of disappearing from the result.
+        second_order_scores = {
+            cand: 0 for cand in scores if cand in tied
+        }
         for winner, loser in wins:
             if winner in tied:
                 second_order_scores[winner] += scores[loser]
